@@ -18,7 +18,7 @@ LEVEL_TEXT["C20"] = (
 )
 
 PROPS["C20"] = {
-    "gen": ["Dynamics", "StepsBase", "StepsDyn"],
+    "gen": ["Dynamics", "StepsBase", "StepsDyn", "StepsArray", "CtorDyn"],
     "lean_props": ["DspVerif.Props.C20", "DspVerif.Props.C20Gen"],
     "harness": [{"src": "c20.cpp", "cfg": "rel",
                  "tol": {"comp": (1e-11, 1e-290), "lim": (1e-11, 1e-290), "gate": (1e-11, 1e-290),
